@@ -1352,18 +1352,22 @@ func (e *Entry) Find(name string) *Entry {
 			case "input":
 				if e.RPC.Input == nil {
 					e.RPC.Input = &Entry{
-						Name: "input",
-						Kind: InputEntry,
-						Dir:  make(map[string]*Entry),
+						Parent: e,
+						Node:   e.Node,
+						Name:   "input",
+						Kind:   InputEntry,
+						Dir:    make(map[string]*Entry),
 					}
 				}
 				e = e.RPC.Input
 			case "output":
 				if e.RPC.Output == nil {
 					e.RPC.Output = &Entry{
-						Name: "output",
-						Kind: OutputEntry,
-						Dir:  make(map[string]*Entry),
+						Parent: e,
+						Node:   e.Node,
+						Name:   "output",
+						Kind:   OutputEntry,
+						Dir:    make(map[string]*Entry),
 					}
 				}
 				e = e.RPC.Output
